@@ -42,20 +42,21 @@ def pulse_amps(amp, ripple, seed, npulses):
     return np.clip(a, 0.3, 1.4)
 
 
-def modulate_into(buf, start, bits, amps):
+def modulate_into(buf, start, bits, amps, drop=None):
     """Write one frame (preamble + PPM bits) into buf at sample ``start``."""
+    # samples beyond the end of the buffer are simply not transmitted (a frame
+    # truncated by the end of the window: the transmission stops there)
+    n = len(buf)
     k = 0
     for off in PRE:
-        buf[start + off] = amps[k]
+        if start + off < n:
+            buf[start + off] = amps[k]
         k += 1
-    for p in (1, 3, 4, 5, 6, 8, 10, 11, 12, 13, 14, 15):
-        pass  # non-pulse preamble samples keep the noise already in buf
     base = start + 16
     for i, b in enumerate(bits):
-        if b:
-            buf[base + 2 * i] = amps[k]
-        else:
-            buf[base + 2 * i + 1] = amps[k]
+        pos = base + 2 * i + (0 if b else 1)
+        if pos < n and not (drop and drop[0] <= i < drop[0] + drop[1]):
+            buf[pos] = amps[k]   # (a dropout leaves both chips of the bit period at noise level)
         k += 1
 
 
@@ -88,9 +89,9 @@ def build_window(win, noise, min_pulse_out=None):
     for f in win["frames"]:
         bits, sent = frame_bits(f["hex"], f.get("flips", ()))
         amps = pulse_amps(f["amp"], f.get("ripple", 0.0), f.get("rseed", 0), 4 + len(bits))
-        modulate_into(buf, f["start"], bits, amps)
+        modulate_into(buf, f["start"], bits, amps, f.get("drop"))
         m = float(amps.min())
         minp = m if minp is None else min(minp, m)
-        if is_valid(sent):
+        if is_valid(sent) and f["start"] + frame_samples(len(bits)) <= n and not f.get("drop"):
             expected.append(sent)
     return buf, expected, minp
